@@ -107,9 +107,9 @@ Section Open.
       destruct (Hn n) as [Hn1 Hn2]. destruct (owned_in (s_pxys s) rid n).
       - specialize (Hok' n). rewrite (Hn1 eq_refl) in Hok'. destruct Hok'; congruence.
       - destruct (Hn2 eq_refl) as (_ & Hv & _). rewrite Hv in G. now apply (Ho n). }
-    destruct op as [rid user|rid|rid k name sk allow|rid k name sk allow|rid name|rid name ts sign ue uc cid eok|rid name ts sign pre sid dl|sid|name];
+    destruct op as [rid user|rid|rid k name sk allow|rid k name sk allow|rid name|rid name ts sign ue uc cid eok|rid name ts sign pre sid dl|sid|name|rid claimed answers];
       cbn [sys_step].
-    - cbn [fst s_vm]. apply Hlogout.
+    - cbn [fst]. unfold sys_login. cbn [s_vm]. apply Hlogout.
     - cbn [fst]. apply Hlogout.
     - destruct (vget rid (s_users s)) as [u|]; [|exact Ho].
       destruct (vget name (s_pxys s)); [exact Ho|]. now apply run_add_open.
@@ -134,6 +134,8 @@ Section Open.
       destruct (v_bytes_dec n name) as [->|Hne].
       + rewrite vget_vset_same in G'. injection G' as <-. cbn. now apply (Ho name).
       + rewrite vget_vset_other in G' by assumption. now apply (Ho n).
+    - destruct (plugin_login claimed answers) as [user|]; cbn [fst]; [|exact Ho].
+      unfold sys_login. cbn [s_vm]. apply Hlogout.
   Qed.
 
   Lemma open_run : forall h s, sys_inv s -> (exists sp, sys_abs s sp) -> vm_open (s_vm s) ->
@@ -174,3 +176,51 @@ Section Open.
       + rewrite E. eauto.
   Qed.
 End Open.
+
+(* ---------- Login plugins: the authenticated user is the one that comes out of the plugin chain ---------- *)
+Lemma plugin_login_reject c : forall answers, In PReject answers -> plugin_login c answers = None.
+Proof.
+  intros answers. revert c. induction answers as [|a r IH]; intros c Hin; [destruct Hin|].
+  destruct a; cbn; [reflexivity| |]; (destruct Hin as [H|H]; [discriminate|now apply IH]).
+Qed.
+
+(* once a plugin has rewritten the user, what the client claimed plays no part any more *)
+Theorem plugin_rewrite_forgets_claim u : forall pre post c1 c2,
+  plugin_login c1 (pre ++ PRewrite u :: post) = plugin_login c2 (pre ++ PRewrite u :: post).
+Proof.
+  induction pre as [|a pre IH]; intros post c1 c2; cbn; [reflexivity|].
+  destruct a; [reflexivity|apply IH|apply IH].
+Qed.
+
+Theorem plugin_rewrite_last_wins : forall answers c u,
+  ~ In PReject answers -> plugin_login c (answers ++ [PRewrite u]) = Some u.
+Proof.
+  induction answers as [|a r IH]; intros c u Hn; cbn; [reflexivity|].
+  destruct a; [exfalso; apply Hn; now left| |]; apply IH; intros H; apply Hn; now right.
+Qed.
+
+(* the session's user - the one the allowed-users lists are checked against - is the outcome of the chain *)
+Theorem session_user_is_after_plugins h rid claimed answers :
+  sp_user (spec_of (h ++ [SLoginVia rid claimed answers])) rid =
+  match plugin_login claimed answers with Some u => Some u | None => sp_user (spec_of h) rid end.
+Proof.
+  unfold spec_of. rewrite fold_left_app. cbn [fold_left spec_step].
+  destruct (plugin_login claimed answers); [|reflexivity]. cbn. unfold vupd. now rewrite v_bytes_eqb_refl.
+Qed.
+
+(* ---------- the handshake deadline ---------- *)
+Theorem join_reads_never_time_out evs :
+  hs_armed_at HJoin false evs = Some false -> forall d t, stream_read_ok false d t = true.
+Proof. reflexivity. Qed.
+
+(* the order of the code: arm, read the response, clear, join: armed during the handshake, cleared for the stream *)
+Theorem handshake_order_ok :
+  hs_armed_at HReadResp false [HArm; HReadResp; HClear; HJoin] = Some true /\
+  hs_armed_at HJoin false [HArm; HReadResp; HClear; HJoin] = Some false.
+Proof. split; reflexivity. Qed.
+
+(* a reset that is deferred runs after the join: the deadline stays armed and an old stream's reads fail *)
+Theorem deferred_reset_refuted :
+  hs_armed_at HJoin false [HArm; HDeferClear; HReadResp; HJoin] = Some true /\
+  exists d t, stream_read_ok true d t = false.
+Proof. split; [reflexivity|]. exists 10000, 10500. reflexivity. Qed.
